@@ -301,6 +301,10 @@ def run_check(pid: str, tier: str, seed: int, replay: str | None = None) -> int:
         if f["key"] in known_seen:
             print(f"KNOWN-FINDING: property={pid} {f['key']}: {f['what_fails']} "
                   f"(re-observed {known_seen[f['key']]}x)")
+        elif not replay:
+            # listed in known_findings.json but its input class did not come up in this run
+            print(f"KNOWN-FINDING: property={pid} {f['key']}: {f['what_fails']} "
+                  f"(listed; not re-observed in this run)")
 
     replays = []
     os.makedirs(os.path.join(VERIF, "replays"), exist_ok=True)
